@@ -21,15 +21,16 @@ def kterm(p0, p1, q0, q1, sigma):
     return NP.exp(-d1 / (8 * sigma)) - NP.exp(-d2 / (8 * sigma))
 
 
-def eval_contract():
+def eval_contract(dtypes=("float", "float")):
+    """dtypes: element types of the two diagrams as stored by the caller (integer-typed diagrams are ordinary inputs)"""
     def make_args(eng):
-        F, m = sym_diagram(eng, "dgm1")
-        G, n = sym_diagram(eng, "dgm2")
+        F, m = sym_diagram(eng, "dgm1", dtype=dtypes[0])
+        G, n = sym_diagram(eng, "dgm2", dtype=dtypes[1])
         sigma = eng.fresh_real("sigma")
         eng.assume(sigma.t > 0)
         g = {"m": m, "n": n, "F": F, "G": G}
-        g["inner"] = Sigma(eng, "HInner", 1, lambda i, j: kterm(F.get(i, 0), F.get(i, 1), G.get(j, 0), G.get(j, 1), sigma))
-        g["outer"] = Sigma(eng, "HOuter", 0, lambda i: g["inner"].upto(i, n))
+        g["inner"] = Sigma(eng, "HInner", 1, lambda i, j: kterm(F.get(i, 0), F.get(i, 1), G.get(j, 0), G.get(j, 1), sigma), zero_rule=True)
+        g["outer"] = Sigma(eng, "HOuter", 0, lambda i: g["inner"].upto(i, n), zero_rule=True)
         return {"dgm1": F, "dgm2": G, "sigma": sigma}, g
 
     def ensures(a, res):
@@ -52,7 +53,7 @@ def eval_contract():
     return Contract(MOD, "evalHeatKernel", make_args, ensures=ensures, definedness="P",
                     loops={0: LoopContract("for i in", inv_outer, cls="P"),
                            1: LoopContract("for j in", inv_inner, cls="P")},
-                    summary=eval_summary)
+                    summary=eval_summary, variant="" if dtypes == ("float", "float") else "dtypes=%s,%s" % dtypes)
 
 
 def kspec(eng, A, B, sigma):
@@ -105,6 +106,6 @@ def lemmas():
 
 
 def all_contracts(tier):
-    cs = [eval_contract(), heat_contract(), lemmas()]
+    cs = [eval_contract(), heat_contract(), lemmas(), eval_contract(("int", "int")), eval_contract(("int", "float"))]
     table = {(MOD, "evalHeatKernel"): cs[0]}
     return cs, table
